@@ -11,6 +11,9 @@
                          1..MaxMembers over {lim-1, lim, lim+1, 5 bytes}; 7z: one solid folder, and (two
                          members) one folder per member is left to C10 (per-folder pack streams);
                          BigLim2: lim = 64 MiB configured, members around lim2 = 50 MiB.
+             duplicate names: zip / tar / 7z, two entries of one name straddling the limit, both orders
+             tar types: regular 5 bytes + regular lim+1 + one of {hard, sym} x {-> small, -> oversized,
+                         -> missing}, fifo, chr, GNU sparse / pax at lim and lim+1; symlink first
    Part (b): Cases = construct x magnitude x position as listed in CostCases.                      *)
 EXTENDS Limits
 
@@ -25,12 +28,14 @@ gvars == <<vars, gov, cls>>
 
 Around(x) == {x - 1, x, x + 1}
 
-ReadFileScns ==
-    { [Scn("read_file") EXCEPT !.max = m, !.size = s] :
-        m \in SmallFileLimits \cup {DefaultMaxFileSize}, s \in {0} } \ { [Scn("read_file") EXCEPT !.max = 1, !.size = 0] }
+\* every file is presented directly (via = 0), through a symbolic link (1) and through a link to a link (2)
+Vias == {0, 1, 2}
+NominalLinkSize == 40
 ReadFileAll ==
-    UNION { { [Scn("read_file") EXCEPT !.max = m, !.size = s] : s \in Around(m) } : m \in SmallFileLimits \cup {DefaultMaxFileSize} }
-    \cup { [Scn("read_file") EXCEPT !.max = 0, !.size = s] : s \in {0, 1, DefaultMaxFileSize + 1} }
+    UNION { { [Scn("read_file") EXCEPT !.max = m, !.size = s, !.via = w, !.lsize = IF w = 0 THEN 0 ELSE NominalLinkSize] :
+                s \in Around(m), w \in Vias } : m \in SmallFileLimits \cup {DefaultMaxFileSize} }
+    \cup { [Scn("read_file") EXCEPT !.max = 0, !.size = s, !.via = w, !.lsize = IF w = 0 THEN 0 ELSE NominalLinkSize] :
+                s \in {0, 1, DefaultMaxFileSize + 1}, w \in Vias }
 
 SevenzScns == { [Scn("sevenz_size") EXCEPT !.size = s] : s \in Around(Max7zFileSize) }
 
@@ -38,14 +43,45 @@ MemberSizes(lim) == Around(lim) \cup {5}
 SizeSeqs(lim) == UNION { [1..n -> MemberSizes(lim)] : n \in 1..MaxMembers }
 MemberScns ==
     { [Scn("members") EXCEPT !.kind = kd, !.lim = lm, !.lim2 = MaxArchiveFileSize,
-                             !.members = [i \in DOMAIN sq |-> Mem(sq[i], IF kd = "7z" THEN 1 ELSE i)]] :
+                             !.members = [i \in DOMAIN sq |-> Mem(sq[i], IF kd = "7z" THEN 1 ELSE i, i, "reg", 0)]] :
         kd \in {"zip", "tar", "7z"}, lm \in MemberLimits, sq \in UNION { SizeSeqs(l) : l \in MemberLimits } }
 MemberScnsOK == { s \in MemberScns : \A i \in DOMAIN s.members : s.members[i].size \in MemberSizes(s.lim) }
 Lim2Scns ==
     IF BigLim2 THEN { [Scn("members") EXCEPT !.kind = kd, !.lim = 64 * MiB, !.lim2 = MaxArchiveFileSize,
-                                             !.members = <<Mem(sz, 1)>>] :
+                                             !.members = <<Mem(sz, 1, 1, "reg", 0)>>] :
                         kd \in {"zip", "tar"}, sz \in Around(MaxArchiveFileSize) }
     ELSE {}
+
+\* ---- duplicate member names (all three containers allow them): two entries of ONE name whose sizes straddle
+\* the limit, both orders, plus two small ones
+DupPairs(lim) == { <<5, lim + 1>>, <<lim + 1, 5>>, <<lim, lim + 1>>, <<lim + 1, lim>>, <<5, 6>>, <<lim + 1, lim + 1>> }
+DupScns ==
+    { [Scn("members") EXCEPT !.kind = kd, !.lim = lm, !.lim2 = MaxArchiveFileSize,
+                             !.members = <<Mem(7, IF kd = "7z" THEN 1 ELSE 1, 1, "reg", 0),
+                                           Mem(pr[1], IF kd = "7z" THEN 1 ELSE 2, 2, "reg", 0),
+                                           Mem(pr[2], IF kd = "7z" THEN 1 ELSE 3, 2, "reg", 0)>>] :
+        kd \in {"zip", "tar", "7z"}, lm \in MemberLimits, pr \in UNION { DupPairs(l) : l \in MemberLimits } }
+DupScnsOK == { s \in DupScns : \A i \in DOMAIN s.members : s.members[i].size \in MemberSizes(s.lim) \cup {6, 7} }
+
+\* ---- tar entries of every type next to a small (5 bytes) and an oversized (lim + 1) regular member:
+\* hard / symbolic links to the small one, to the oversized one, to nothing; fifo; character device;
+\* GNU sparse and pax-extended data entries at the limit and above it.  Symbolic links also in front.
+TarSpecials(lim) ==
+    { Mem(0, 3, 3, "hard", 1), Mem(0, 3, 3, "hard", 2), Mem(0, 3, 3, "hard", 0),
+      Mem(0, 3, 3, "sym", 1),  Mem(0, 3, 3, "sym", 2),  Mem(0, 3, 3, "sym", 0),
+      Mem(0, 3, 3, "fifo", 0), Mem(0, 3, 3, "chr", 0),
+      Mem(lim, 3, 3, "sparse", 0), Mem(lim + 1, 3, 3, "sparse", 0),
+      Mem(lim, 3, 3, "pax", 0), Mem(lim + 1, 3, 3, "pax", 0) }
+TarTypeScns ==
+    { [Scn("members") EXCEPT !.kind = "tar", !.lim = lm, !.lim2 = MaxArchiveFileSize,
+                             !.members = <<Mem(5, 1, 1, "reg", 0), Mem(lm + 1, 2, 2, "reg", 0), x>>] :
+        lm \in MemberLimits, x \in UNION { TarSpecials(l) : l \in MemberLimits } }
+    \cup
+    { [Scn("members") EXCEPT !.kind = "tar", !.lim = lm, !.lim2 = MaxArchiveFileSize,
+                             !.members = <<Mem(0, 1, 1, "sym", t), Mem(5, 2, 2, "reg", 0), Mem(lm + 1, 3, 3, "reg", 0)>>] :
+        lm \in MemberLimits, t \in {2, 3} }
+TarTypeScnsOK == { s \in TarTypeScns : \A i \in DOMAIN s.members :
+                      s.members[i].type \in {"sparse", "pax"} => s.members[i].size \in {s.lim, s.lim + 1} }
 
 \* ---- part (b): the enumerated amplifier cases: <<construct, positions, magnitudes>>
 P2 == 2147483647
@@ -93,7 +129,8 @@ GovernsScn(s) ==
     ELSE IF s.k = "members" /\ s.kind = "7z" /\ \E i \in DOMAIN s.members : MustSkip(s.members[i].size, s.lim)
          THEN "ExtractAllIgnoresFilter" ELSE ""
 
-Scenarios == (IF "a" \in Parts THEN ReadFileAll \cup SevenzScns \cup MemberScnsOK \cup Lim2Scns ELSE {})
+Scenarios == (IF "a" \in Parts THEN ReadFileAll \cup SevenzScns \cup MemberScnsOK \cup Lim2Scns \cup DupScnsOK \cup TarTypeScnsOK
+              ELSE {})
              \cup (IF "b" \in Parts THEN CostScns ELSE {})
 
 GenInit == \E s \in Scenarios : InitWith(s) /\ gov = GovernsScn(s) /\ cls = ""
